@@ -6,6 +6,7 @@ package main
 // fed by an I/O error, is a violation.
 
 import (
+	"strings"
 	"fmt"
 	"go/token"
 	"go/types"
@@ -64,6 +65,9 @@ type pnSite struct {
 func pnSites(c *Ctx, cone map[*ssa.Function]bool) []pnSite {
 	var out []pnSite
 	for _, fn := range sortedFuncs(moduleOnly(c, cone)) {
+		if c.IsNew(fn) {
+			continue // seen through the groups of its callers
+		}
 		var ps, as []ssa.Instruction
 		for _, b := range theCtx.GB(fn) {
 			for _, ins := range b.Instrs {
@@ -93,6 +97,7 @@ func rulePanicCensus(c *Ctx, r *Report, roots []*ssa.Function, which string) {
 	rule := "PN-" + which
 	cone := c.Cone(roots...)
 	e := GetEF(c)
+	adopted := map[string]bool{}
 	for _, s := range pnSites(c, cone) {
 		pos := c.InstrPos(s.ins)
 		// (a) a panic fed or guarded by an I/O error is a violation of "no call panics"
@@ -103,6 +108,25 @@ func rulePanicCensus(c *Ctx, r *Report, roots []*ssa.Function, which string) {
 			}
 		}
 		ent, known := pnTable[s.key]
+		if !known {
+			// a site that moved here because its (reference-tree) function was inlined into this one
+			for k, e2 := range pnTable {
+				i := strings.LastIndex(k, ":")
+				if i < 0 || !strings.HasPrefix(k[i+1:], s.kind) || adopted[k] {
+					continue
+				}
+				if h := c.heirByFnName(k[:i]); h == s.fn {
+					ent, known = e2, true
+					adopted[k] = true
+					if ent.auto == "assert" || ent.auto == "neverfail" || ent.auto == "typeswitch" {
+						// these discharges look at the site itself and still apply
+					} else {
+						ent.auto = ""
+					}
+					break
+				}
+			}
+		}
 		if !known {
 			r.Fail(rule, s.key, pos, fmt.Sprintf("%s site in %s is reachable from the %s API and is not in the frozen justification table: "+
 				"a new explicit panic / unchecked type assertion needs a proof obligation or must become an error return", s.kind, FnName(s.fn), which))
